@@ -51,15 +51,25 @@ PROPS["C20"] = {
     "trusted_base": ["filepath.EvalSymlinks / os.Getwd behaviour as modelled by evalSym/absComps", "hook H2 (guard-only probe) placed directly after the sanitisation block"],
 }
 PROPS["C06"] = {
-    "unclaimed": True,
     "suites": [{"name": "store", "quick": 60, "thorough": 1500, "timeout": 3000}],
-    "required_theorems": [],
+    "required_theorems": ["C06_inv_init", "C06_inv_step", "C06_reachable_inv", "C06_abs_nodup", "C06_abs_step", "C06_get_eq",
+                          "C06_byTopology_eq", "C06_candidates_eq", "C06_scanFull_eq", "C06_scanExact_sound",
+                          "C06_scanExact_complete", "C06_count_eq", "C06_list_eq", "C06_export_eq", "C06_stats_eq",
+                          "C06_entropyRange_eq"],
     "level_text": "Refinement proof: the Pebble-with-indexes model refines the spec ID -> Signature; invariant preserved by every well-formed operation for every finite history; each lookup equals brute force over the surviving records. Tie: random histories on a real on-disk Pebble with all lookups after every step, compared with the harness's own surviving-signature map (oracle) and with the Lean model.",
     "level_note": "Trusted: Lean kernel; Pebble's batch atomicity and iterator order (modelled as a sorted association list); gob/JSON record encoding (identity in the model, round trip covered by the differential); `%08.4f` modelled as fixed-width round-half-even.",
     "trusted_base": ["Pebble batch atomicity, byte-lexicographic iteration, snapshots", "encoding/gob round trip of detection.Signature"],
     "assumptions": ["topology/fuzzy hashes contain no ':' (the product's own hash alphabets)", "IDs non-empty"],
 }
 
+PROPS["C14"] = {
+    "suites": [{"name": "sandbox", "quick": 400, "thorough": 8000}],
+    "required_theorems": ["C14_lockdown", "C14_binds_readonly", "C14_parent_first", "C14_reserved_rejected",
+                          "C14_user_mounts", "C14_escape_rejected"],
+    "level_text": "Kernel-checked theorems about the generateSpec / prepareMountPoints model for every request list and host observation: lock-down constants, every bind mount read-only, no mount listed before one of its ancestors (sortedness + prefix-is-smaller), reserved collisions rejected, escaping mount points rejected. Tie: the real functions (through an overlay-injected accessor) on generated request sets (nested, duplicated, relative, symlinks, reserved spellings, '..') compared with the model on the WHOLE Spec; the same clauses are checked as oracles on the real Spec.",
+    "level_note": "Trusted: Lean kernel; filepath.Abs modelled lexically; EvalSymlinks/Stat results are observations passed to the model; the OCI runtime itself (runsc is not installed) is out of scope; parent-first assumes GOROOT, when set, is absolute.",
+    "trusted_base": ["filepath.Abs = lexical clean of cwd-joined path", "host observations (lib paths exist, EvalSymlinks results) gathered by the harness with the standard library"],
+}
 _PENDING = "check not built yet in this round (planned: Lean model + theorems + differential, see DESIGN.md §5)"
 # entries with "unclaimed": True are runnable (./check Cxx) but not yet claimed in MANIFEST.json
 NOT_APPLICABLE = {p: _PENDING for p in ["C%02d" % i for i in range(1, 21)] if p not in PROPS or PROPS[p].get("unclaimed")}
